@@ -465,6 +465,31 @@ Definition wuse_le (a b : wuse) : bool :=
   match wuse_merge a b with Some c => wuse_eqb c b | None => false end.
 Definition wordev_le (a b : wordev) : bool := width_le (fst a) (fst b) && wuse_le (snd a) (snd b).
 
+(* ---- the SPECIFICATION of compatible usages: written by hand, NOT generated from WordUse::merge ----
+   The information order on usages that C15 speaks about: `bytes` says nothing; `numeric` (used in arithmetic, sign unknown) is
+   refined by `unsigned`, `signed` and `address` (an address takes part in unsigned arithmetic, so `unsigned` is below
+   `address` too); a boolean, a selector and a function pointer are never numbers.  Two usages are compatible iff they are
+   comparable, and the join is the larger one; everything else is "incompatible usages" and must conflict.  The predicates the
+   searches evaluate on the implementation's output use THIS join (wordev_join_all_s), and props/C15.v proves that the table
+   generated from the source coincides with it (C15_usage_table_is_spec): a table that joins what the specification calls
+   contradictory -- or refuses what it calls compatible -- breaks that theorem and is found by the searches. *)
+Definition wuse_below_spec (a b : wuse) : bool :=
+  match a, b with
+  | UBytes, _ => true
+  | UNumeric, (UNumeric | UUnsignedNumeric | USignedNumeric | UAddress) => true
+  | UUnsignedNumeric, (UUnsignedNumeric | UAddress) => true
+  | _, _ => wuse_eqb a b
+  end.
+Definition wuse_join_spec (a b : wuse) : option wuse :=
+  if wuse_below_spec a b then Some b else if wuse_below_spec b a then Some a else None.
+Definition wordev_join_s (a b : wordev) : option wordev :=
+  match width_merge (fst a) (fst b), wuse_join_spec (snd a) (snd b) with
+  | Some w, Some u => Some (w, u)
+  | _, _ => None
+  end.
+Definition wordev_join_all_s (x : wordev) (l : list wordev) : option wordev :=
+  fold_left (fun a b => match a with Some y => wordev_join_s y b | None => None end) l (Some x).
+
 (* folding `merge` over a list of evidence the way `unify` does (left fold); None = a panic *)
 Fixpoint merge_fold (acc : te) (l : list te) (p : tyvar) (n : N) : option te :=
   match l with
